@@ -8,6 +8,7 @@ package main
 import (
 	"fmt"
 	"math"
+	"os"
 
 	"verifharness/lib"
 )
@@ -161,6 +162,16 @@ func main() {
 	hr := r.Fork()
 	for i := 0; i < nHist && deadlineHits < 2; i++ {
 		runHist("", genHist(hr))
+	}
+	nd := 0
+	for e, n := range disturbed {
+		nd += n
+		fmt.Printf("NOTE %d rounds not recorded because an exchange failed with an error the scripted peer does not cause: %s\n", n, e)
+	}
+	if nd*50 > roundsRun+50 {
+		fmt.Printf("too many disturbed rounds: %d of %d\n", nd, roundsRun)
+		w.Close()
+		os.Exit(3)
 	}
 	fmt.Printf("NOTE histories=%d rounds dropped because their history was already more than 2 s old=%d histories dropped entirely=%d rounds that ran into their 10 s context deadline=%d malformed datagrams at the peer=%d\n",
 		nHist, slowRounds, abandoned, deadlineHits, thePeer.bad)
